@@ -63,14 +63,20 @@ func (c *ctx) walk(u *universe, o walkOpts) {
 		if o.Hist {
 			hrec = c.startHistory(w)
 		}
-		for i := 0; i < o.Ops; i++ {
-			op := g.randomOp()
+		cover := coverCalls(u, w)
+		for i := 0; i < o.Ops+len(cover); i++ {
+			var op *worldOp
+			if i < len(cover) {
+				op = &worldOp{Kind: opTx, Call: cover[i]}
+			} else {
+				op = g.randomOp()
+			}
 			pre := w.snap()
 			sr := w.step(op)
 			hist = append(hist, op.String())
 			if hrec != nil {
 				hrec.add(op)
-				if i+1 == 40 || i+1 == o.Ops {
+				if i+1 == 40 || i+1 == o.Ops+len(cover) {
 					c.emitHistory(hrec, w, fmt.Sprintf("history of world %d, first %d operations (seed %d)", wi, i+1, c.seed))
 				}
 			}
